@@ -59,6 +59,21 @@ def repo_sources_hash(repo_root):
     return h.hexdigest()[:20]
 
 
+def machinery_hash():
+    """Hash of the contracts and of pyvc: a lock entry speaks about formulas only while these are what they were."""
+    h = hashlib.sha256()
+    for r in (os.path.join(VERIF_ROOT, "contracts"), os.path.join(VERIF_ROOT, "pyvc")):
+        for d, dirs, files in sorted(os.walk(r)):
+            dirs[:] = sorted(x for x in dirs if x not in ("__pycache__",))
+            for f in sorted(files):
+                if f.endswith(".py"):
+                    p_ = os.path.join(d, f)
+                    h.update(os.path.relpath(p_, VERIF_ROOT).encode())
+                    with open(p_, "rb") as fh:
+                        h.update(fh.read())
+    return h.hexdigest()[:20]
+
+
 def tree_hash(repo_root, tier):
     """Hash of everything a verdict depends on: the repository sources, the contracts, pyvc."""
     h = hashlib.sha256()
@@ -211,6 +226,9 @@ def main(argv=None):
     cache_hits = 0
     retried = []
     accepted_from_lock = []
+    machinery_now = machinery_hash()
+    # once a function has an undischarged obligation, its remaining paths are explored for at most this long
+    os.environ.setdefault("PYVC_WALL_S", "900" if thorough else "300")
     repo_now = repo_sources_hash(repo.root)
     repo_unchanged = lock.get("__repo__", {}).get("tree") == repo_now
 
@@ -225,7 +243,11 @@ def main(argv=None):
         else:
             rep = verify_function(repo, reg, q, z3_ms=z3_ms)
             lk = lock.get(q, {}).get("obligations", [])
-            if not rep.errors and any(r["status"] == "unknown" and r["name"] in lk for r in rep.obligations):
+            if (not rep.errors and any(r["status"] == "unknown" and r["name"] in lk for r in rep.obligations)
+                    # only for text that is what it was when the lock was written (a busy machine); a function
+                    # whose source changed, or that already has a refuted obligation, gets its verdict at once
+                    and lock.get(q, {}).get("source_hash") == rep.hash
+                    and not any(r["status"] == "refuted" for r in rep.obligations)):
                 # a previously proved obligation came back `unknown`: decide it with three times
                 # the solver budgets before anything is concluded (a busy machine must not turn
                 # into a verdict)
@@ -304,14 +326,9 @@ def main(argv=None):
             else:
                 undecided.append({"function": q, "obligation": name, "reason": rec.get("reason", "vacuous"), "changed": True})
             continue
-        if rec["status"] != "refuted" and was_proved and repo_unchanged:
-            # nothing in the repository differs from the tree the lock was made on: an obligation
-            # that is `unknown` now (even with tripled budgets) is a solver-budget problem of the
-            # machinery, never a verdict about the code
-            checker_errors.append(f"{name}: proved when the lock was written, undecided now on an unchanged repository ({rec.get('reason', '')[:120]})")
-            continue
         fnow = next((f for f in functions if f["qualname"] == q), {})
         same_vc = (was_proved and locked.get("source_hash") == fnow.get("source_hash")
+                   and locked.get("machinery") == machinery_now
                    and "inlined_hashes" in locked and locked["inlined_hashes"] == fnow.get("inlined_hashes"))
         if rec["status"] != "refuted" and same_vc:
             # the text this obligation was generated from (the function and every function inlined into
@@ -320,6 +337,12 @@ def main(argv=None):
             # about code that was edited elsewhere.  Counted as discharged, and listed.
             accepted_from_lock.append(name)
             ob["status"] = "proved"
+            continue
+        if rec["status"] != "refuted" and was_proved and repo_unchanged:
+            # nothing in the repository differs from the tree the lock was made on: an obligation
+            # that is `unknown` now (even with tripled budgets) is a solver-budget problem of the
+            # machinery, never a verdict about the code
+            checker_errors.append(f"{name}: proved when the lock was written, undecided now on an unchanged repository ({rec.get('reason', '')[:120]})")
             continue
         if rec["status"] == "refuted" or was_proved:
             violations.append(make_violation(pid, spec, name, ob, rec, was_proved))
@@ -482,6 +505,7 @@ def main(argv=None):
         for fn in functions:
             q = fn["qualname"]
             lock[q] = {"source_hash": fn["source_hash"], "inlined_hashes": fn.get("inlined_hashes", {}),
+                       "machinery": machinery_now,
                        "obligations": sorted(n for n, o in all_obs.items() if o["function"] == q and o["status"] == "proved")}
         lock["__repo__"] = {"tree": repo_now}
         with open(LOCK, "w") as f:
